@@ -279,6 +279,16 @@ def lifecycle_script(rng, shape, length):
         out.append({"a": "discover", "k": b, "m": b, "req": NOA, "reqs": "ip:" + a, "xid": "x4", "prl": "none"})
         out.append({"a": "request", "k": b, "m": b, "sid": "us", "ropt": NOA, "ropts": "offer:" + b, "ci": NOA, "cis": "lit", "srck": "zero", "xid": "x4", "prl": "none"})
 
+    def holder_rediscovers(a, b):
+        # the holder of a valid lease sends a fresh DISCOVER (its lease waits in discover state), the session forgets the
+        # address (purge of the silent holder, or a new handler / process), a competitor asks for exactly that address and
+        # selects what it is offered, then the holder selects its re-offer
+        out.append({"a": "discover", "k": a, "m": a, "req": NOA, "reqs": "ip:" + a, "xid": "x2", "prl": "none"})
+        out.append({"a": rng.choice(["purge", "purge", "reload"])})
+        out.append({"a": "discover", "k": b, "m": b, "req": NOA, "reqs": "ip:" + a, "xid": "x3", "prl": "none"})
+        out.append({"a": "request", "k": b, "m": b, "sid": "us", "ropt": NOA, "ropts": "offer:" + b, "ci": NOA, "cis": "lit", "srck": "zero", "xid": "x3", "prl": "none"})
+        out.append({"a": "request", "k": a, "m": a, "sid": "us", "ropt": NOA, "ropts": "offer:" + a, "ci": NOA, "cis": "lit", "srck": "zero", "xid": "x2", "prl": "none"})
+
     for k in pool[:rng.randint(2, 3)]:
         if rng.random() < 0.25:
             out.append({"a": "capture", "m": k})
@@ -354,11 +364,16 @@ def lifecycle_script(rng, shape, length):
                 if rng.random() < 0.5:
                     out.append({"a": rng.choice(["capture", "uncapture"]), "m": k})
                 dora(j, m=k)                                             # known MAC under another client id (option 61 appears / changes)
-        elif x < 0.89:
+        elif x < 0.88:
             j = rng.choice([c for c in pool if c != k])
             if j not in active:
                 active.append(j)
             expiry_takeover(k, j)
+        elif x < 0.895:
+            j = rng.choice([c for c in pool if c != k])
+            if j not in active:
+                active.append(j)
+            holder_rediscovers(k, j)
         elif x < 0.91:
             j = rng.choice([c for c in pool if c != k])
             if j not in active:
